@@ -294,6 +294,8 @@ impl MachineState {
     #[inline(always)]
     pub(crate) fn check_for_interrupt(&mut self) -> bool {
         if INTERRUPT.swap(false, atomic::Ordering::Relaxed) {
+            #[cfg(feature = "verif")]
+            crate::verif::interrupt_delivered();
             self.throw_interrupt_exception();
             self.backtrack();
 
@@ -1538,6 +1540,8 @@ impl Machine {
                 if interrupt_counter.0 == 0 {
                     break;
                 }
+                #[cfg(feature = "verif")]
+                crate::verif::tick();
                 match self.code[self.machine_st.p] {
                     Instruction::BreakFromDispatchLoop => {
                         break 'outer;
@@ -1614,6 +1618,8 @@ impl Machine {
                     break;
                 }
 
+                #[cfg(feature = "verif")]
+                crate::verif::tick();
                 let Some(inst) = self.code.get(self.machine_st.p) else {
                     // a separate function marked #[cold] to make the compiler/branch-predictor prefer the happy path
                     handle_code_index_oob(self.code.len(), self.machine_st.p);
